@@ -350,6 +350,19 @@ def run_case(case):
                 P["double_use_diagnosed"] = P.get("double_use_diagnosed", 0) + 1
             else:
                 raise Violation("port_bit_used_by_two_buffers", -1, {"dir": bdir, "width": n})
+            if q.direction.value == "io":
+                # ... also when one buffer reads the bit and the other drives it
+                m3 = Module()
+                m3.submodules.bi = bi_ = io.Buffer("i", q)
+                m3.submodules.bo = bo_ = io.Buffer("o", q[0:1])
+                o3 = Signal(name="o3")
+                m3.d.comb += [bo_.o.eq(o3), bo_.oe.eq(1)]
+                try:
+                    rtlil.convert(m3, ports=[o3, bi_.i])
+                except DriverConflict:
+                    P["double_use_in_and_out_diagnosed"] = P.get("double_use_in_and_out_diagnosed", 0) + 1
+                else:
+                    raise Violation("port_bit_used_by_two_buffers", -1, {"dirs": ["i", "o"], "width": n})
         # a buffer whose direction the port cannot serve must be refused when it is constructed (ValueError), for every port and
         # buffer kind: Input port with Output/Bidir buffer, Output port with Input/Bidir buffer
         for pd, bd in (("i", "o"), ("i", "io"), ("o", "i"), ("o", "io")):
